@@ -213,3 +213,42 @@ def run_case(case: dict[str, Any]) -> CaseOut:
                   'msg': case['msg'][:160], 'keywords': case['keywords'],
                   'tag': case['tag'], 'hnames': case['hnames']}
     return out
+
+
+# -- coverage-guided part (harness/fuzz.py) ----------------------------------------------
+
+FUZZ = {'quick': (600, 4), 'thorough': (30000, 16)}
+FUZZ_MAX_LEN = 3000
+FUZZ_DICT = gen.FUZZ_MIME_DICT
+_SEP = b'\xfe\xfe'
+
+
+def fuzz_decode(data: bytes) -> Any:
+    """0xfe 0xfe separates: message, two mailbox names, two keywords, two
+    header names, one ID key/value pair; byte 0 is the spelling selector"""
+    if len(data) < 3:
+        return None
+    parts = data[1:].split(_SEP)
+    if not parts[0]:
+        return None
+
+    def line(b: bytes, n: int) -> bytes:
+        return b[:n].replace(b'\r', b' ').replace(b'\n', b' ')
+    names = [p.decode('utf-8', 'replace')[:10] for p in parts[1:3] if p]
+    kws = [re.sub(rb'[^A-Za-z0-9$_.\-\]}\\]', b'', p)[:20]
+           for p in parts[3:5]]
+    hn = [p[:70] for p in parts[5:7] if p] or [b'Subject']
+    idp = [[line(parts[7], 20), line(parts[8], 80)]] if len(parts) > 8 else []
+    return {'backend': 'dict', 'names': names, 'msg': parts[0],
+            'keywords': [k for k in kws if k], 'tag': b'a', 'id': idp,
+            'hnames': hn, 'hspell': data[0]}
+
+
+def fuzz_seeds() -> list[bytes]:
+    out = []
+    for i, m in enumerate(gen.FUZZ_MESSAGES):
+        out.append(bytes([i]) + m)
+        out.append(bytes([i]) + m + _SEP + b'box' + _SEP + 'é"x'.encode()
+                   + _SEP + b'$kw' + _SEP + b'\\Seen' + _SEP + b'To' + _SEP
+                   + b'X-"q' + _SEP + b'name' + _SEP + b'value "q"')
+    return out
